@@ -69,6 +69,110 @@ def run_cvc5(smt2, timeout_s, want_model=False):
             pass
 
 
+def _is_ground(t, cache):
+    i = t.get_id()
+    if i in cache:
+        return cache[i]
+    if z3.is_var(t):
+        cache[i] = False
+        return False
+    if z3.is_quantifier(t):
+        cache[i] = False
+        return False
+    r = all(_is_ground(c, cache) for c in t.children())
+    cache[i] = r
+    return r
+
+
+def _ground_terms(exprs, limit=60):
+    """ground subterms by sort (candidates for instantiating quantified assumptions)"""
+    by_sort = {}
+    seen = set()
+    gcache = {}
+    stack = list(exprs)
+    while stack:
+        e = stack.pop()
+        i = e.get_id()
+        if i in seen:
+            continue
+        seen.add(i)
+        if z3.is_quantifier(e):
+            stack.append(e.body())
+            continue
+        stack.extend(e.children())
+        if z3.is_app(e) and _is_ground(e, gcache):
+            k = e.sort().kind()
+            if k in (z3.Z3_BOOL_SORT,):
+                continue
+            key = str(e.sort())
+            lst = by_sort.setdefault(key, {})
+            if len(lst) < limit:
+                lst[i] = e
+    return {k: list(v.values()) for k, v in by_sort.items()}
+
+
+def _split_quantified(pc):
+    plain, quant = [], []
+    for f in pc:
+        parts = f.children() if z3.is_and(f) else [f]
+        for p in parts:
+            if z3.is_and(p):
+                for q in p.children():
+                    (quant if _has_quant(q) else plain).append(q)
+            else:
+                (quant if _has_quant(p) else plain).append(p)
+    return plain, quant
+
+
+def _has_quant(e):
+    seen = set()
+    stack = [e]
+    while stack:
+        x = stack.pop()
+        if x.get_id() in seen:
+            continue
+        seen.add(x.get_id())
+        if z3.is_quantifier(x):
+            return True
+        stack.extend(x.children())
+    return False
+
+
+def ground_instances(pc, goal_neg, rounds=2):
+    """replace universally quantified assumptions by their instances over the ground terms of the query.
+    Every instance is implied by the assumption, so `unsat` of the result is a valid proof; `sat` is only a
+    candidate counterexample (it may not extend to a model of the quantified assumptions)."""
+    plain, quant = _split_quantified(pc)
+    if not quant:
+        return None
+    insts = []
+    pool = plain + [goal_neg]
+    for _ in range(rounds):
+        terms = _ground_terms(pool + insts)
+        new = []
+        for q in quant:
+            if not (z3.is_quantifier(q) and q.is_forall()):
+                # quantifier nested under connectives: keep it out (weakening)
+                continue
+            n = q.num_vars()
+            cands = []
+            ok = True
+            for j in range(n):
+                ts = terms.get(str(q.var_sort(j)), [])
+                if not ts:
+                    ok = False
+                    break
+                cands.append(ts[:25] if n == 1 else ts[:8])
+            if not ok:
+                continue
+            import itertools
+            for combo in itertools.product(*cands):
+                # de Bruijn: var 0 is the LAST bound variable
+                new.append(z3.substitute_vars(q.body(), *reversed(combo)))
+        insts = new
+    return plain + insts
+
+
 class Obligation:
     def __init__(self, name, clause, status, backend, secs, model=None, info=None, path=None, smt=None):
         self.name = name            # stable id: "<fn>:<kind>[<label>]"
@@ -197,6 +301,21 @@ class PathCtx:
             neg = z3.Not(f)
             use_cvc5_first = _has_strings(self.pc + [neg])
             order = ["cvc5", "z3"] if use_cvc5_first else ["z3", "cvc5"]
+            weak_model = None
+            gi = ground_instances(self.pc, neg) if any(_has_quant(p) for p in self.pc) else None
+            if gi is not None:
+                # quantified assumptions: first try with their ground instances only (a valid proof if unsat)
+                s2 = z3.Solver()
+                s2.set("timeout", VC_TIMEOUT_MS)
+                for a in gi:
+                    s2.add(a)
+                s2.add(neg)
+                r = s2.check()
+                if r == z3.unsat:
+                    status, backend = "discharged", "z3(ground instances)"
+                elif r == z3.sat:
+                    weak_model = s2.model()
+                order = [] if status else ["z3"]
             for be in order:
                 if be == "z3":
                     self.solver.push()
@@ -227,6 +346,14 @@ class PathCtx:
                             model = {"cvc5_model": None}
                 if status:
                     break
+            if not status and weak_model is not None:
+                # candidate counterexample from the instantiated query: reported only if the native replay
+                # confirms it (report.py); otherwise the obligation counts as undecided
+                status, backend = "refuted", "z3(ground instances; candidate)"
+                zmodel = weak_model
+                model = self._model_dict(weak_model)
+                info = dict(info or {})
+                info["weak"] = True
             if not status:
                 status, backend = "undecided", "z3+cvc5"
         dt = time.time() - t0
